@@ -145,8 +145,11 @@ fn gen_grid(rng: &mut Rng, min_nodes: usize, max_nodes: usize, coarse: bool) -> 
         }
         return x;
     }
+    // 10 %: stretched grids (far-field meshes): cell widths from 1/8 up to 3 * 2^12 side by side, so that a
+    // threshold meant as absolute but written relative to the cell width (or the other way round) shows
+    let stretched = rng.chance(0.1);
     for _ in 1..n {
-        let e = if coarse { rng.range(0, 4) } else { rng.range(0, 9) };
+        let e = if stretched { -rng.range(-3, 12) } else if coarse { rng.range(0, 4) } else { rng.range(0, 9) };
         let m = rng.range(1, 4) as f64;
         let last = *x.last().unwrap();
         x.push(last + m * (2.0f64).powi(-(e as i32)));
@@ -259,7 +262,7 @@ impl C19 {
                     2 | 3 => Op::IdxSet1 { m, node: rng.usize_below(64), var: rng.usize_below(4), val: gen_val(rng) },
                     4 => Op::Get1 { m, node: rng.usize_below(64) },
                     5 => Op::Nodes1 { m },
-                    6 | 7 | 8 => Op::Interp1 { m, cell: rng.usize_below(64), kind: rng.below(6) as u8, frac: rng.unit() },
+                    6 | 7 | 8 => Op::Interp1 { m, cell: rng.usize_below(64), kind: rng.below(8) as u8, frac: rng.unit() },
                     9 | 10 => Op::Trap1 { m, var: rng.usize_below(4) },
                     _ => Op::LinCheck1 { m, var: rng.usize_below(4), a: rng.range(-20, 20) as f64, b: rng.range(-8, 8) as f64 },
                 }
@@ -529,10 +532,18 @@ impl<'a> World<'a> {
                 let n = l.model.nodes.len();
                 let c = cell % (n - 1);
                 let (xl, xr) = (l.model.nodes[c], l.model.nodes[c + 1]);
-                let x = match kind % 6 {
+                // kinds 6, 7: a distance d from a node anywhere between 1e-6 and a quarter of the cell, log-uniform
+                // (1e-6 * 2^j): still "at least 1e-6 away from every node", but no longer "a hair more than"
+                let near_d = |width: f64| {
+                    let j = (frac * 4096.0) as i32 % 22;
+                    (1.0e-6 * (1.001 + frac) * (2.0f64).powi(j)).min(0.25 * width)
+                };
+                let x = match kind % 8 {
                     0 => xl,
                     1 => xr,
                     2 => 0.5 * (xl + xr),
+                    6 => xr - near_d(xr - xl),
+                    7 => xl + near_d(xr - xl),
                     // just inside the cell, a hair more than 1e-6 away from a node (the closest the property allows)
                     4 => xr - 1.0e-6 * (1.001 + frac),
                     5 => xl + 1.0e-6 * (1.001 + frac),
@@ -543,10 +554,14 @@ impl<'a> World<'a> {
                     }
                 };
                 let got = l.mesh.get_interpolated_vars(x);
-                self.stats.count(match kind % 6 {
+                if xr - xl > 10.0 || (c + 2 < n && l.model.nodes[c + 2] - xr > 10.0) || (c > 0 && xl - l.model.nodes[c - 1] > 10.0) {
+                    self.stats.count("probe.interpolation_next_to_a_cell_wider_than_10");
+                }
+                self.stats.count(match kind % 8 {
                     0 | 1 => "op.interpolate_at_node",
                     2 => "op.interpolate_mid_cell",
                     4 | 5 => "op.interpolate_1e-6_from_a_node",
+                    6 | 7 => "op.interpolate_1e-6_to_quarter_cell_from_a_node",
                     _ => "op.interpolate_interior",
                 });
                 if xl.abs() > 64.0 {
